@@ -12,6 +12,7 @@ import (
 
 	"go.miragespace.co/specter/spec/chord"
 	"go.miragespace.co/specter/spec/mocks"
+	"go.miragespace.co/specter/spec/transport"
 	"go.miragespace.co/specter/spec/protocol"
 	"go.miragespace.co/specter/spec/tun"
 	"go.miragespace.co/specter/tun/server"
@@ -37,6 +38,14 @@ func (n *scriptedNode) Get(ctx context.Context, key []byte) ([]byte, error) {
 	}
 	return r.val, r.err
 }
+
+// idTransport: a tunnel transport of which only the identity is reachable from the loader.
+type idTransport struct {
+	transport.Transport
+	id *protocol.Node
+}
+
+func (t *idTransport) Identity() *protocol.Node { return t.id }
 
 type slot struct {
 	kind string // R E X U N
@@ -99,6 +108,14 @@ func main() {
 	logger := zap.NewNop()
 	n := tun.NumRedundantLinks
 
+	// one Server for the whole run (each server.New starts two caches with their own goroutines)
+	theNode := &scriptedNode{tab: map[string]getRes{}}
+	clt := &idTransport{}
+	srv := server.New(server.Config{
+		ParentContext: context.Background(), Logger: logger, Chord: theNode,
+		TunnelTransport: clt, ChordTransport: new(mocks.Transport), Apex: "example.com", Acme: "acme.example.com",
+	})
+
 	run := func(self string, nilIdentity bool, slots []slot) {
 		node := &scriptedNode{tab: map[string]getRes{}}
 		host := "h.example.com"
@@ -110,17 +127,13 @@ func main() {
 			kinds += s.kind
 			node.tab[tun.RoutingKey(host, i+1)] = res
 		}
-		clt := new(mocks.Transport)
 		if nilIdentity {
-			clt.On("Identity").Return(nil)
+			clt.id = nil
 			self = ""
 		} else {
-			clt.On("Identity").Return(&protocol.Node{Address: self, Id: 1})
+			clt.id = &protocol.Node{Address: self, Id: 1}
 		}
-		srv := server.New(server.Config{
-			ParentContext: context.Background(), Logger: logger, Chord: node,
-			TunnelTransport: clt, ChordTransport: new(mocks.Transport), Apex: "example.com", Acme: "acme.example.com",
-		})
+		theNode.tab = node.tab
 		rhs := func() (out string) {
 			defer func() {
 				if e := recover(); e != nil {
